@@ -796,15 +796,20 @@ def ref_base(n, r):
     return s
 
 
+P53 = 2 ** 53
+
+
 def base_special(r):
+    """digit-length boundaries r^k, r^k +- 1 up to 2^53 (the largest n BASE is documented for), and the neighbours of
+    2^39, 2^40 (where a two's-complement reading of the hex functions would interfere) and 2^53"""
     vals = []
     k = 1
-    while r ** k - 1 < P39:
+    while r ** k - 1 < P53:
         for n in (r ** k - 1, r ** k, r ** k + 1):
-            if 5000 < n < P39 and n not in vals:
+            if 5000 < n < P53 and n not in vals:
                 vals.append(n)
         k += 1
-    for n in (P39 - 1, P39 - 2):
+    for n in (P39 - 2, P39 - 1, P39, P39 + 1, 2 ** 40 - 1, 2 ** 40, 2 ** 40 + 1, P53 - 1):
         if n not in vals:
             vals.append(n)
     return vals
@@ -812,7 +817,7 @@ def base_special(r):
 
 class BaseDecimal(Sub):
     name = 'c17.base_decimal'
-    rule = ('radix 2..36 x n in 0..N and r^k, r^k+-1 < 2^39, 2^39-1: BASE(n,r) is the positional text with digits '
+    rule = ('radix 2..36 x n in 0..N and r^k, r^k+-1 < 2^53, the neighbours of 2^39 and 2^40, 2^53-1: BASE(n,r) is the positional text with digits '
             '0-9A-Z (case-insensitive) and DECIMAL(BASE(n,r),r) = n (where BASE is wrong: DECIMAL(reference text,r) '
             '= n instead), each within the step budget; non-trivial = representation has >= 2 digits or a letter digit')
     BLOCK = 100
